@@ -87,7 +87,9 @@ class Native:
         if argtypes is not None: f.argtypes = argtypes
         return f
     def create(s):
-        return NSim(s, s.lib.reb_simulation_create())
+        ns = NSim(s, s.lib.reb_simulation_create())
+        ns.set('save_messages', 1)        # keep the library's diagnostics off stdout/stderr
+        return ns
 
 _CT = {('int', 1, True): ctypes.c_int8, ('int', 1, False): ctypes.c_uint8, ('int', 2, True): ctypes.c_int16, ('int', 2, False): ctypes.c_uint16,
        ('int', 4, True): ctypes.c_int32, ('int', 4, False): ctypes.c_uint32, ('int', 8, True): ctypes.c_int64, ('int', 8, False): ctypes.c_uint64}
